@@ -26,3 +26,50 @@ def no_brace_fault_before(s: "Str", n: "Int") -> "Bool":
 def braces_ok(s: "Str") -> "Bool":
     """no nested '{', no '}' without an open '{', and nothing left open"""
     return no_brace_fault_before(s, len(s)) and open_at(s, len(s)) < 0
+
+
+# ----------------------------------------------------------------------------- tokenizer (C02)
+def is_delim(c):
+    return c == ',' or c == '(' or c == ')'
+
+
+def covered(R):
+    """end of the last span of R (0 for the empty list)"""
+    return 0 if len(R) == 0 else R[len(R) - 1][1][1]
+
+
+def spans_wf(R, n):
+    """non-empty consecutive spans starting at 0 and ending at or before n"""
+    return (all(0 <= R[k][1][0] < R[k][1][1] <= n for k in range(len(R)))
+            and all(implies(k2 == k + 1, R[k][1][1] == R[k2][1][0]) for k in range(len(R)) for k2 in range(len(R)))
+            and (len(R) == 0 or R[0][1][0] == 0))
+
+
+def tag_span_ok(s, a, b):
+    """a tag span holds no delimiter and neither starts nor ends with a blank"""
+    return s[a] != ' ' and s[b - 1] != ' ' and all(not is_delim(s[j]) for j in range(a, b))
+
+
+def delim_span_ok(s, a, b):
+    """a delimiter span holds only delimiters and blanks, at most one of them non-blank"""
+    return (all(is_delim(s[j]) or s[j] == ' ' for j in range(a, b))
+            and all(s[j1] == ' ' or s[j2] == ' ' for j1 in range(a, b) for j2 in range(j1 + 1, b)))
+
+
+def has_delim(s, a, b):
+    return any(is_delim(s[j]) for j in range(a, b))
+
+
+def spans_chars_ok(R, s):
+    return all((tag_span_ok(s, R[k][1][0], R[k][1][1]) if R[k][0] else delim_span_ok(s, R[k][1][0], R[k][1][1]))
+               for k in range(len(R)))
+
+
+def no_adjacent_tags(R):
+    return all(implies(k2 == k + 1, not (R[k][0] and R[k2][0])) for k in range(len(R)) for k2 in range(len(R)))
+
+
+def inner_delims_present(R, s, n):
+    """a non-tag span that touches neither end of the text contains a delimiter (so blanks alone never split a tag)"""
+    return all(implies(not R[k][0] and R[k][1][0] > 0 and R[k][1][1] < n, has_delim(s, R[k][1][0], R[k][1][1]))
+               for k in range(len(R)))
